@@ -4,6 +4,9 @@ import (
 	"bytes"
 	"fmt"
 	"math/big"
+	"sort"
+	"strings"
+	"verif/internal/refcodec"
 
 	vmcommon "github.com/ElrondNetwork/elrond-vm-common"
 	"verif/internal/gen"
@@ -27,6 +30,7 @@ type WalkOpts struct {
 	FlipPayable   bool // the payability oracle's answer for a contract changes among the steps
 	PadNumbers    bool // numeric arguments of transfer calls get leading zero bytes now and then
 	Faults        int  // percent of legs during which one injectable dependency call fails
+	Reencode      bool // stored entries are rewritten, between legs, into equivalent representations
 	OnLeg         func(u *gen.Universe, m *Mon, l *node.Leg)
 	Setup         func(u *gen.Universe, m *Mon)
 }
@@ -40,6 +44,7 @@ type Walk struct {
 	creator map[string][]byte // token -> current create-role holder (sys actor's book-keeping)
 	handing map[string]bool
 	flipR   *harness.Rand // side stream for payability flips
+	encR    *harness.Rand // side stream for re-encodings
 }
 
 var amountsPool = []*big.Int{big.NewInt(1), big.NewInt(2), big.NewInt(7), big.NewInt(50), big.NewInt(1000), gen.Pow2(64), new(big.Int).Add(gen.Pow2(70), big.NewInt(12345)),
@@ -59,7 +64,7 @@ func NewWalk(r *harness.Rand, rep *harness.Reporter, o WalkOpts, enabled ...stri
 	}
 	m.Attach(u.N)
 	u.N.RecordPayable = o.RecordPayable
-	w := &Walk{U: u, M: m, R: r, O: o, creator: map[string][]byte{}, handing: map[string]bool{}, flipR: r.Side(0x666c6970)}
+	w := &Walk{U: u, M: m, R: r, O: o, creator: map[string][]byte{}, handing: map[string]bool{}, flipR: r.Side(0x666c6970), encR: r.Side(0x656e63)}
 	if o.OnLeg != nil {
 		u.N.Observers = append(u.N.Observers, func(n *node.Node, l *node.Leg) { o.OnLeg(u, m, l) })
 	}
@@ -661,6 +666,57 @@ func (w *Walk) reconfigure() {
 	}
 }
 
+// reencode rewrites one stored protocol entry of one actor into an EQUIVALENT representation (as an
+// older or different writer of the same state could have left it): a not-frozen token entry with
+// absent properties <-> properties 00 00, a nonce counter with a leading zero byte, a role list
+// rotated by one. The logical state (and so the shadow) is unchanged; this happens between legs.
+func (w *Walk) reencode() {
+	u, r := w.U, w.encR
+	a := u.W.AccountIfExists(u.Actors[r.Intn(len(u.Actors))])
+	if a == nil {
+		return
+	}
+	var keys []string
+	for k := range a.Storage {
+		if strings.HasPrefix(k, "ELROND") {
+			keys = append(keys, k)
+		}
+	}
+	if len(keys) == 0 {
+		return
+	}
+	sort.Strings(keys)
+	k := keys[r.Intn(len(keys))]
+	v := a.Peek([]byte(k))
+	switch {
+	case strings.HasPrefix(k, node.NoncePrefix):
+		if len(v) > 0 && len(v) < 12 {
+			a.Poke([]byte(k), append([]byte{0}, v...))
+			w.M.R.Cover("walk/reencoded:counter-leading-zero")
+		}
+	case strings.HasPrefix(k, node.RolePrefix):
+		if roles, err := refcodec.DecodeRoles(v); err == nil && len(roles) > 1 {
+			a.Poke([]byte(k), refcodec.EncodeRoles(append(append([][]byte{}, roles[1:]...), roles[0])))
+			w.M.R.Cover("walk/reencoded:roles-rotated")
+		}
+	case strings.HasPrefix(k, node.KeyPrefix):
+		t, err := refcodec.DecodeToken(v)
+		if err != nil || t.Amount().Sign() <= 0 {
+			return
+		}
+		switch {
+		case bytes.Equal(t.Properties, []byte{0, 0}):
+			t.Properties = nil
+		case len(t.Properties) == 0:
+			t.Properties = []byte{0, 0}
+		default:
+			return
+		}
+		a.Poke([]byte(k), refcodec.EncodeToken(t))
+		w.M.R.Cover("walk/reencoded:properties")
+	}
+}
+
 // opForge: the adversary submits, as its own transaction, the destination-form data of a message
 // it has seen (what only the protocol may deliver with no sender account): the credit-only leg
 // must not be reachable from a transaction.
@@ -697,6 +753,9 @@ func (w *Walk) Step() *node.Leg {
 	if w.O.Reconfigure && r.Chance(3) {
 		w.reconfigure()
 		return nil
+	}
+	if w.O.Reencode && w.encR.Chance(20) {
+		w.reencode()
 	}
 	if w.O.FlipPayable && w.flipR.Chance(6) && len(w.U.Contracts) > 0 {
 		// a contract is upgraded to (non-)payable, or the oracle starts failing for it
